@@ -52,6 +52,9 @@ CHECKS = {
         note="Trusts vp/model.py as reading of the documented semantics, the g++-12 -O1 tree build with harness-side shims, and truthful harness nodes.",
         technique="runtime monitoring: instrumented-node trace vs executable reference model (offline checker)",
     ),
+    "C20": _c("exploration",
+              "Three-stage chain per (shape, history): source -> mirror + dense_record R1 (+ two in-graph capture_delta/apply_delta copies with mirrors); replay(R1) -> mirror + record R2; replay(R2) -> mirror + record R3, GlobalState carried by the harness. A structural differ compares every reproduction tick with the original (values, added/removed/modified parts, flags, canonical delta modulo ordering) and the recorded buffers entry by entry; the only tolerated deviations are the three recorded known findings, each recognised by its own predicate.",
+              "DESIGN.md section 3 C20", TRUST, "runtime monitoring: record/replay chain differential + buffer comparison"),
 }
 
 
